@@ -66,8 +66,9 @@ static GCase pad_case(const GCase& base, int mode, int L) {
 
 struct PadCase { int rich, mode, L; };
 static std::vector<PadCase> PADS;
-static void build_pads(int lo, int hi, int step, const std::vector<int>& modes, size_t nrich) {
+static void build_pads(int lo, int hi, int step, const std::vector<int>& modes, size_t nrich, int onlyRich = -1) {
     for (size_t r = 0; r < RICH.size() && r < nrich; r++) for (int m : modes) {
+        if (onlyRich >= 0 && (int)r != onlyRich) continue;
         if (!pad_applicable(RICH[r], m)) continue;
         for (int L = lo; L < hi; L += step) PADS.push_back({(int)r, m, L});
     }
@@ -230,7 +231,7 @@ static bool setup_space(const std::string& space, const Args& a, bool thorough, 
         std::vector<int> modes;
         std::string ms = a.str("modes", space == "ladder" ? "1,2,3,4" : "1,2");
         for (char ch : ms) if (ch >= '0' && ch <= '9') modes.push_back(ch - '0');
-        build_pads(lo, hi, step, modes, (size_t)a.num("rich", thorough ? 8 : 4));
+        build_pads(lo, hi, step, modes, (size_t)a.num("rich", thorough ? 8 : 4), (int)a.num("only-rich", -1));
         g_sax_only = a.num("sax-only", 0) != 0;
         R.total = PADS.size();
         R.fn = space == "ladder" ? run_ladder_case : run_trunc_case;
